@@ -55,6 +55,9 @@ int main(int argc, char **argv) {
     v_open(argv[5]);
     if (sodium_init() < 0) return 3;
     for (int t = 0; t < n; t++) ops(t, expect[t]);          /* sequential reference */
+    /* "default-closed": the application closed the generator after initialisation (documented, rarely needed); the threads' next
+     * uses re-open it concurrently */
+    if (!strcmp(argv[4], "default-closed")) randombytes_close();
     pthread_t th[MAXT]; pthread_barrier_init(&bar, NULL, (unsigned) n);
     for (int t = 0; t < n; t++) pthread_create(&th[t], NULL, worker, (void *) (intptr_t) t);
     for (int t = 0; t < n; t++) pthread_join(th[t], NULL);
